@@ -380,26 +380,86 @@ pub struct TermFull { pub name: CowStr, pub from: TermFrom }
 pub struct RouteFilterFull { pub address: CowStr, pub prefix_length_range: CowStr }
 #[verifier::external_body]
 pub fn str_eq_cow(a: &&str, lit: &str) -> (r: bool) { unimplemented!() }
-// HashMap<Name, T> with the entry API
+// HashMap<Name, T> with the entry API (ghost map from the name's text to the value)
 pub struct HashMap<T> { pub m: Ghost<Map<Seq<u8>, T>> }
 pub enum Entry<'a, T> { Occupied(OccupiedEntry), Vacant(VacantEntry<'a, T>) }
 pub struct OccupiedEntry;
 pub struct VacantEntry<'a, T> { pub map: &'a mut HashMap<T>, pub key: Name }
 impl<T> HashMap<T> {
     #[verifier::external_body] pub fn new() -> (r: HashMap<T>) ensures r.m@ == Map::<Seq<u8>, T>::empty() { unimplemented!() }
-    #[verifier::external_body] pub fn entry<'a>(&'a mut self, k: Name) -> (r: Entry<'a, T>) { unimplemented!() }
+    #[verifier::external_body]
+    pub fn entry<'a>(&'a mut self, k: Name) -> (r: Entry<'a, T>)
+        ensures match r {
+            Entry::Occupied(_) => old(self).m@.contains_key(k.t@) && final(self).m@ == old(self).m@,
+            Entry::Vacant(v) => !old(self).m@.contains_key(k.t@) && v.key.t@ == k.t@ && v.map.m@ == old(self).m@ && final(self).m@ == final(v.map).m@,
+        }
+    { unimplemented!() }
+    #[verifier::external_body]
+    pub fn remove(&mut self, k: &Name) -> (r: Option<T>) ensures final(self).m@ == old(self).m@.remove(k.t@) { unimplemented!() }
+    #[verifier::external_body]
+    pub fn insert(&mut self, k: Name, v: T) -> (r: Option<T>) ensures final(self).m@ == old(self).m@.insert(k.t@, v) { unimplemented!() }
+    #[verifier::external_body]
+    pub fn contains_key(&self, k: &Name) -> (r: bool) ensures r == self.m@.contains_key(k.t@) { unimplemented!() }
 }
-impl<'a, T> VacantEntry<'a, T> { #[verifier::external_body] pub fn insert(self, v: T) -> (r: u8) { unimplemented!() } }
+impl<'a, T> VacantEntry<'a, T> {
+    #[verifier::external_body]
+    pub fn insert(self, v: T) -> (r: u8) ensures final(self.map).m@ == old(self.map).m@.insert(self.key.t@, v) { unimplemented!() }
+}
 impl Clone for Name { #[verifier::external_body] fn clone(&self) -> (r: Self) ensures r.t@ == self.t@ { unimplemented!() } }
 //@item file=junos-agent/src/policies/mod.rs kind=struct name=Policies sub=/pub(crate) struct Policies<T>=>pub struct Policies<T>;map: HashMap<Name, T>=>pub map: HashMap<T>/
-// `Maybe<T>: ReadXml` - the per-statement readers (Maybe<Candidate> / Maybe<Installed>, verified above)
+// `Maybe<T>: ReadXml` - the per-statement readers (Maybe<Candidate> / Maybe<Installed>, verified above). For the aggregation the
+// callee's part of the log is summarised by one item: TextOf(name) for a selected statement, Data for one that is not selected.
 pub trait MaybeRead: Sized {
     fn read_maybe(reader: &mut NsReader, start: &BytesStart) -> (r: Result<Maybe<Self>, ReadError>)
-        ensures r is Ok ==> final(reader).remaining@.len() <= old(reader).remaining@.len();
+        ensures r is Ok ==> final(reader).remaining@.len() <= old(reader).remaining@.len(),
+                r matches Ok(Maybe(Some(sel))) ==> final(reader).log@ == old(reader).log@.push(Item::TextOf(sel.0.t@)),
+                r matches Ok(Maybe(None)) ==> final(reader).log@ == old(reader).log@.push(Item::Data),
+                r is Err ==> is_prefix(old(reader).log@, final(reader).log@);
 }
+// names of the statements selected in a consumed segment of the log, in document order
+pub open spec fn selected(s: Seq<Item>) -> Seq<Seq<u8>>
+    decreases s.len()
+{
+    if s.len() == 0 { Seq::empty() } else { match s.last() { Item::TextOf(t) => selected(s.drop_last()).push(t), _ => selected(s.drop_last()) } }
+}
+pub broadcast proof fn lemma_selected_push(s: Seq<Item>, it: Item)
+    ensures #[trigger] selected(s.push(it)) == (match it { Item::TextOf(t) => selected(s).push(t), _ => selected(s) }),
+{
+    let s2 = s.push(it);
+    assert(s2.drop_last() =~= s);
+    assert(s2.last() == it);
+}
+pub broadcast proof fn lemma_selected_empty()
+    ensures #[trigger] selected(Seq::<Item>::empty()) == Seq::<Seq<u8>>::empty(),
+{
+}
+// C16 at the level of the whole reply: the managed set is exactly the set of selected statements, and a name that is selected
+// twice is an error (never silently one of the two, never "neither")
+pub open spec fn aggregated<T>(m: Map<Seq<u8>, T>, names: Seq<Seq<u8>>) -> bool {
+    &&& names.no_duplicates()
+    &&& forall|n: Seq<u8>| #[trigger] m.contains_key(n) <==> names.contains(n)
+}
+pub proof fn lemma_aggregated_push<T>(m: Map<Seq<u8>, T>, names: Seq<Seq<u8>>, n: Seq<u8>, v: T)
+    requires aggregated(m, names), !m.contains_key(n),
+    ensures aggregated(m.insert(n, v), names.push(n)),
+{
+    let n2 = names.push(n);
+    assert(n2[names.len() as int] == n);
+    assert forall|x: Seq<u8>| #[trigger] m.insert(n, v).contains_key(x) <==> n2.contains(x) by {
+        if names.contains(x) { let i = choose|i: int| 0 <= i < names.len() && names[i] == x; assert(n2[i] == x); }
+        if n2.contains(x) { let i = choose|i: int| 0 <= i < n2.len() && n2[i] == x; if i < names.len() { assert(names[i] == x); } }
+    }
+    assert forall|i: int, j: int| 0 <= i < n2.len() && 0 <= j < n2.len() && i != j implies n2[i] != n2[j] by {
+        if i < names.len() && j < names.len() { assert(names[i] != names[j]); }
+        else if i < names.len() { assert(names.contains(names[i])); }
+        else if j < names.len() { assert(names.contains(names[j])); }
+    }
+}
+pub broadcast group agg_lemmas { xml_log_lemmas, lemma_selected_push, lemma_selected_empty }
 
 pub mod c14_readers {
 use super::*;
+broadcast use agg_lemmas;
 impl TermFull {
 //@extract id=term_read_xml file=junos-agent/src/policies/fetch.rs impl=/BorrowedReadXml<'i> for Term<'i>/ fn=borrowed_read_xml rules=R1,R2,R7,R8,R11,R15,R17 r7map=option constpats=XNM erase=NsReader,BytesStart,BytesEnd
 //@sig pub fn borrowed_read_xml(reader: &mut NsReader, start: &BytesStart) -> (res: Result<Self, ReadError>)
@@ -434,22 +494,46 @@ impl RouteFilterFull {
 impl<T: MaybeRead> Policies<T> {
 //@extract id=policies_read_xml file=junos-agent/src/policies/fetch.rs impl=/impl<T> ReadXml for Policies<T>/ fn=read_xml rules=R1,R2,R7,R8,R11,R15,R17 r7map=option constpats=XNM vis=pub
 //@+ sub=/Maybe::read_xml(reader, &tag)?=>T::read_maybe(reader, &tag)?/
+//@local map /let mut (\w+) = HashMap::new\(\);/
+//@local this /let end = start\.to_end\(\);\s*let mut (\w+) = None;/
 //@contract
         ensures res is Ok ==> final(reader).remaining@.len() <= old(reader).remaining@.len(),
+                res is Ok ==> is_prefix(old(reader).log@, final(reader).log@),
+                // C16: the managed set is exactly the set of statements the per-statement reader selected; a name selected twice
+                // makes the whole reply an error
+                res matches Ok(p) ==> aggregated(p.map.m@, selected(seg_of(old(reader).log@, final(reader).log@))),   // OBL:C16.policies.exactly_the_selected_statements
 //@loop 1
             invariant reader.remaining@.len() <= old(reader).remaining@.len(),
+                is_prefix(old(reader).log@, reader.log@),
+                match this { Some(p) => aggregated(p.map.m@, selected(seg_of(old(reader).log@, reader.log@))),
+                             None => selected(seg_of(old(reader).log@, reader.log@)) == Seq::<Seq<u8>>::empty() },   // OBL:C16.policies.aggregate_so_far
             decreases reader.remaining@.len(),                                                  // OBL:C14.policies.terminates
 //@loop 2
                         invariant reader.remaining@.len() <= rem_at_configuration, rem_at_configuration <= old(reader).remaining@.len(),
+                            is_prefix(old(reader).log@, reader.log@), this is None,
+                            aggregated(map.m@, selected(seg_of(old(reader).log@, reader.log@))),       // OBL:C16.policies.aggregate_in_configuration
                         decreases reader.remaining@.len(),                                      // OBL:C14.policies.configuration_loop_terminates
 //@loop 3
                                     invariant reader.remaining@.len() <= rem_at_policy_options, rem_at_policy_options <= rem_at_configuration,
                                         rem_at_configuration <= old(reader).remaining@.len(),
+                                        is_prefix(old(reader).log@, reader.log@), this is None,
+                                        aggregated(map.m@, selected(seg_of(old(reader).log@, reader.log@))),   // OBL:C16.policies.aggregate_in_policy_options
                                     decreases reader.remaining@.len(),                          // OBL:C14.policies.policy_options_loop_terminates
 //@before /let end = tag\.to_end\(\);/ 1
                     let ghost rem_at_configuration = reader.remaining@.len();
 //@before /let end = tag\.to_end\(\);/ 2
                                 let ghost rem_at_policy_options = reader.remaining@.len();
+//@before /if let Maybe\(Some\(\(name, policy\)\)\) =/ optional
+                                            let ghost seg_before = seg_of(old(reader).log@, reader.log@);
+//@after /let mut this = None;/
+        let _: &Option<Self> = &this;      // (type of `this`, which rustc otherwise infers from the later assignment)
+//@before /if let Entry::Vacant\(entry\) =/ optional
+                                                proof {
+                                                    // (total: if the name is new, adding it keeps the aggregate; cannot fail)
+                                                    if aggregated(map.m@, selected(seg_before)) && !map.m@.contains_key(name.t@) {
+                                                        lemma_aggregated_push(map.m@, selected(seg_before), name.t@, policy);
+                                                    }
+                                                }
 //@end
 }
 } // mod c14_readers
